@@ -127,6 +127,10 @@ struct Model {
     inflight_epochs: VecDeque<u32>,
     /// sending peer connection for every packet in flight, in sending order
     inflight_peers: VecDeque<usize>,
+    /// `check_tx` is judging one of several packets the driver handled in a single call: it takes
+    /// only what this packet prescribes from the front of what was transmitted and leaves the rest
+    /// for the packets that follow.
+    partial: bool,
 }
 
 impl Model {
@@ -168,8 +172,58 @@ fn addr(p: (u64, u32)) -> VsockAddr {
 
 /// Compares what the driver transmitted since the last call with what the model says it must
 /// have transmitted, and lets the peers learn from it.
+///
+/// The protocol also permits packets nobody asked for, and a driver that sends them keeps every
+/// clause of C17/C18: a CREDIT_UPDATE for a connection it has, carrying its true allocation and
+/// forwarded count (it only tells the peer earlier what it would learn anyway), and a RST towards
+/// an address it has no connection with (the usual answer to a packet for an unknown connection).
+/// Such extras are validated, learned from and otherwise ignored.
 fn check_tx(m: &mut Model, site: &str, want: &[ExpPkt]) {
-    let got: Vec<Pkt> = with(|w| w.personality::<VsockDev>().tx.drain(..).collect());
+    let all: Vec<Pkt> = with(|w| w.personality::<VsockDev>().tx.drain(..).collect());
+    let as_exp = |g: &Pkt| ExpPkt { op: g.op, local: g.src_port, peer: (g.dst_cid, g.dst_port), payload_len: g.len, flags: g.flags, buf_alloc: g.buf_alloc, fwd_cnt: g.fwd_cnt };
+    let mut got: Vec<Pkt> = Vec::new();
+    let mut j = 0;
+    let mut rest: Vec<Pkt> = Vec::new();
+    for g in all {
+        if m.partial && j == want.len() {
+            rest.push(g);
+            continue;
+        }
+        let gg = as_exp(&g);
+        if j < want.len() && (gg == want[j] || gg.op == want[j].op) {
+            // the prescribed packet (field differences are reported below)
+            j += 1;
+            got.push(g);
+            continue;
+        }
+        let extra_ok = match g.op {
+            OP_CREDIT_UPDATE => match m.find(gg.peer, gg.local) {
+                Some(i) => gg == m.exp(&m.conns[i], OP_CREDIT_UPDATE, 0, 0) && g.payload.is_empty(),
+                None => false,
+            },
+            OP_RST => m.find(gg.peer, gg.local).is_none() && g.len == 0 && g.payload.is_empty(),
+            _ => false,
+        };
+        if extra_ok {
+            probe("unsolicited_packet_accepted");
+            if g.op == OP_CREDIT_UPDATE {
+                let pi = m.pfind(gg.peer, gg.local);
+                if m.peers[pi].open {
+                    m.peers[pi].seen = Some((g.buf_alloc, g.fwd_cnt));
+                }
+            }
+            continue;
+        }
+        got.push(g);
+    }
+    if !rest.is_empty() {
+        with(|w| {
+            let d = w.personality::<VsockDev>();
+            for g in rest.into_iter().rev() {
+                d.tx.push_front(g);
+            }
+        });
+    }
     if got.len() != want.len() {
         violation(
             "vsock-packets",
@@ -226,7 +280,7 @@ impl TransportFn<()> for Run {
         }
         with(|w| w.check_no_lost_wakeup("vsock-new"));
         let mut mgr: Mgr<T> = VsockConnectionManager::new_with_capacity(sock, self.cap);
-        let mut m = Model { cap: self.cap, listening: vec![], conns: vec![], peers: vec![], next_id: 0, inflight_epochs: VecDeque::new(), inflight_peers: VecDeque::new() };
+        let mut m = Model { cap: self.cap, listening: vec![], conns: vec![], peers: vec![], next_id: 0, inflight_epochs: VecDeque::new(), inflight_peers: VecDeque::new(), partial: false };
         let peers_pool: [(u64, u32); 4] = [(2, 1000), (2, 1001), (7, 1000), (0xffff_ffff_0000_0005, 9)];
         let ports: [u32; 4] = [80, 81, 4321, 0xffff_fff0];
         let n_ops = 10 + choose(150);
@@ -553,6 +607,7 @@ impl TransportFn<()> for Run {
                         Some(raw) => Pkt::decode(raw).is_some_and(|p| yields_result(&m, &p)) && flip(1, 4),
                         None => false,
                     };
+                    let rx_avail_before = with(|w| w.avail_idx_mem(0).unwrap_or(0));
                     let r = if blocking {
                         probe(if next.is_some() { "wait_for_event_ready" } else { "wait_for_event_waits" });
                         let r = mgr.wait_for_event().map(Some);
@@ -572,16 +627,31 @@ impl TransportFn<()> for Run {
                             }
                             check_tx(&mut m, "poll", &[]);
                         }
-                        Some(raw) => {
-                            with(|w| {
-                                w.personality::<VsockDev>().delivered.pop_front();
-                            });
-                            let p = Pkt::decode(&raw).expect("harness packet");
-                            let epoch = m.inflight_epochs.pop_front().unwrap_or(0);
-                            m.inflight_peers.pop_front();
-                            let pi = m.pfind((p.src_cid, p.src_port), p.dst_port);
-                            let stale = epoch != m.peers[pi].epoch;
-                            self.model_poll(&mut m, &p, &r, stale);
+                        Some(_) => {
+                            // One call may deal with several packets as long as all but the last
+                            // are ones the protocol handles silently: every receive buffer handed
+                            // back to the device is one packet consumed (at least the first).
+                            let handed_back = with(|w| w.avail_idx_mem(0).unwrap_or(0)).wrapping_sub(rx_avail_before) as usize;
+                            let k = handed_back.max(1).min(with(|w| w.personality::<VsockDev>().delivered.len()));
+                            if k > 1 {
+                                probe("several_packets_in_one_poll");
+                            }
+                            for i in 0..k {
+                                let Some(raw) = with(|w| w.personality::<VsockDev>().delivered.pop_front()) else { break };
+                                let p = Pkt::decode(&raw).expect("harness packet");
+                                let epoch = m.inflight_epochs.pop_front().unwrap_or(0);
+                                m.inflight_peers.pop_front();
+                                let pi = m.pfind((p.src_cid, p.src_port), p.dst_port);
+                                let stale = epoch != m.peers[pi].epoch;
+                                let last = i + 1 == k;
+                                m.partial = !last;
+                                let ri = if last { r.clone() } else { Ok(None) };
+                                self.model_poll(&mut m, &p, &ri, stale);
+                                m.partial = false;
+                                if violated() {
+                                    break;
+                                }
+                            }
                         }
                     }
                     // whatever happened: the receive buffer is back with the device
@@ -1055,6 +1125,15 @@ impl TransportFn<()> for WrapRx {
                 Err(e) => {
                     violation("vsock-result", "recv", format!("{e:?} after {read} bytes"));
                     break;
+                }
+            }
+            // (a driver may announce freed space by itself; such updates must carry true values)
+            for p in with(|w| w.personality::<VsockDev>().tx.drain(..).collect::<Vec<_>>()) {
+                if p.op == OP_CREDIT_UPDATE && p.fwd_cnt == read as u32 && p.buf_alloc == cap && p.len == 0 {
+                    probe("unsolicited_packet_accepted");
+                    seen = (p.buf_alloc, p.fwd_cnt);
+                } else {
+                    violation("vsock-packets", "recv", format!("recv transmitted op {} (buf_alloc {} fwd_cnt {:#x} len {}); application has read {read} bytes, capacity {cap}", p.op, p.buf_alloc, p.fwd_cnt, p.len));
                 }
             }
             // the driver tells the peer about the freed space
